@@ -17,6 +17,7 @@ import (
 	"os"
 	"path/filepath"
 	"strings"
+	"syscall"
 
 	"github.com/ohler55/slip"
 	_ "github.com/ohler55/slip/pkg"
@@ -42,6 +43,8 @@ type Pin struct {
 	Op    int  `json:"op"`
 	Step  int  `json:"step"`
 	After bool `json:"after"`
+	// Err: instead of a process death the step fails with ENOSPC
+	Err bool `json:"err,omitempty"`
 }
 
 // Case is a session history.
@@ -79,7 +82,7 @@ func (e *engine) Meta() harness.Meta {
 			"an in-process restart (VerifReset + ZeroMods + SetConfigDir + Run) equals a fresh process; violations are replayed in a fresh process before being reported",
 			"stashed/entered forms are readable Lisp (non-ASCII only in strings, |symbols| and characters)",
 		},
-		FaultKinds:    []string{"process_death"},
+		FaultKinds:    []string{"process_death", "io_error"},
 		QuickCases:    480,
 		ThoroughCases: 20000,
 	}
@@ -153,6 +156,11 @@ func genForm(r *tape.Rand, avoid []harness.Finding, stash bool) []string {
 			a = "(" + heads[r.Intn(len(heads))] + " " + a + ")"
 		}
 		toks = append(toks, a)
+	}
+	if r.Pct(4) {
+		// a line longer than the line reader's buffer (4096 bytes)
+		k := 1 + r.Intn(len(toks)-1)
+		toks[k] = `"` + strings.Repeat("long text ", 300+r.Intn(700)) + `"`
 	}
 	toks[len(toks)-1] += ")"
 	// distribute tokens over lines
@@ -805,12 +813,22 @@ func (e *engine) Execute(raw json.RawMessage) (vd harness.Verdict) {
 		nsteps := stepsAt[i+1] - stepsAt[i]
 		for k := 1; k <= nsteps; k++ {
 			for _, after := range []bool{false, true} {
-				if c.Pin != nil && (c.Pin.Op != i || c.Pin.Step != k || c.Pin.After != after) {
+				if c.Pin != nil && (c.Pin.Err || c.Pin.Op != i || c.Pin.Step != k || c.Pin.After != after) {
 					continue
 				}
-				if v := e.crashRun(ops, i, k, after, snaps, a); v != nil {
+				if v := e.crashRun(ops, i, k, after, false, snaps, a); v != nil {
 					pinned := c
 					pinned.Pin = &Pin{Op: i, Step: k, After: after}
+					vd.Pinned, _ = json.Marshal(pinned)
+					vd.V = v
+					return
+				}
+			}
+			// second fault kind: the step fails with "no space left on device"
+			if ops[i].K != "restart" && (c.Pin == nil || (c.Pin.Err && c.Pin.Op == i && c.Pin.Step == k)) {
+				if v := e.crashRun(ops, i, k, false, true, snaps, a); v != nil {
+					pinned := c
+					pinned.Pin = &Pin{Op: i, Step: k, Err: true}
 					vd.Pinned, _ = json.Marshal(pinned)
 					vd.V = v
 					return
@@ -821,7 +839,7 @@ func (e *engine) Execute(raw json.RawMessage) (vd harness.Verdict) {
 	return
 }
 
-func (e *engine) crashRun(ops []Op, i, k int, after bool, snaps []snapshot, a *acc) *harness.Violation {
+func (e *engine) crashRun(ops []Op, i, k int, after bool, ioErr bool, snaps []snapshot, a *acc) *harness.Violation {
 	w := e.newWorld()
 	defer w.destroy()
 	a.evals++
@@ -835,22 +853,38 @@ func (e *engine) crashRun(ops []Op, i, k int, after bool, snaps []snapshot, a *a
 	if !listsEqual(pre.hist, snaps[i].hist) || !listsEqual(pre.stash, snaps[i].stash) {
 		return viol("harness", "crash run diverged from the fault-free pass before op %d", i)
 	}
-	if ops[i].K == "restart" {
-		w.armK, w.armAfter = k, after
-	} else {
-		w.sess.ArmCrash(k, after)
-	}
-	crashed, fail := w.apply(ops[i])
-	if !crashed {
-		if fail != "" {
-			return viol("harness", "op %d failed instead of crashing: %s", i, fail)
-		}
-		return viol("harness", "crash at op %d step %d did not fire", i, k)
-	}
-	a.faults["process_death"]++
 	side := "before"
 	if after {
 		side = "after"
+	}
+	if ioErr {
+		// The step fails with ENOSPC; the operation may fail (the user sees
+		// an error) and the session is then restarted: what is on disk must
+		// be as consistent as after a death.
+		w.sess.ArmError(k, syscall.ENOSPC)
+		crashed, _ := w.apply(ops[i])
+		if crashed {
+			return viol("harness", "unexpected crash in an I/O error run")
+		}
+		if w.sess.ErrFired == 0 {
+			return viol("harness", "I/O error at op %d step %d did not fire", i, k)
+		}
+		a.faults["io_error"]++
+		side = "ENOSPC at"
+	} else {
+		if ops[i].K == "restart" {
+			w.armK, w.armAfter = k, after
+		} else {
+			w.sess.ArmCrash(k, after)
+		}
+		crashed, fail := w.apply(ops[i])
+		if !crashed {
+			if fail != "" {
+				return viol("harness", "op %d failed instead of crashing: %s", i, fail)
+			}
+			return viol("harness", "crash at op %d step %d did not fire", i, k)
+		}
+		a.faults["process_death"]++
 	}
 	if _, err := os.Stat(filepath.Join(w.dir, "history.tmp")); err == nil {
 		a.probes["death_left_history_tmp"]++
@@ -861,7 +895,7 @@ func (e *engine) crashRun(ops []Op, i, k int, after bool, snaps []snapshot, a *a
 	}
 	got := w.snap()
 	A, B := snaps[i], snaps[i+1]
-	a.run = hashOf("crash", ops[i].K, fmt.Sprint(k, after), show(got.hist), show(got.stash))
+	a.run = hashOf("crash", ops[i].K, fmt.Sprint(k, after, ioErr), show(got.hist), show(got.stash))
 	defer func() { a.hashes = append(a.hashes, a.run) }()
 	// An add is made durable by an append or by tmp+rename: old or new state,
 	// never less. Only a clear (truncate and rewrite) may be caught half way,
